@@ -84,42 +84,22 @@ Definition c10r_ok (max : nat) (ifexp : N) (ops : list rqop) (outs : list oout) 
 (* ---------- classification of the redis queue's deviations from the abstract queue ----------
    The faithful model (Model/RQueue.v) is stepped together with the abstract queue; the first
    operation whose output the abstract queue rejects is classified by the situation it was
-   issued in.  Each class is one open defect of persistence/queue/redis/redis.go.  (The classes
-   "length unknown after a restart", "Add before the in-flight entries are replayed" and
-   "ReadInflight(0): whole list at cursor 0 / in-flight entries declared drained at any other
-   cursor" were repaired in /repo - 2a5e8fc, c77f89a, 309d247 - and are part of the oracle proper
-   now.) *)
+   issued in (`rq_situation`), one class per open defect of persistence/queue/redis/redis.go.
+   There is no open defect at present: every class found so far was repaired in /repo and is
+   part of the oracle proper now -
+     "length unknown after a restart", "Add before the in-flight entries are replayed" (2a5e8fc, c77f89a);
+     "ReadInflight(0): whole list at cursor 0 / drained at any other cursor" (309d247);
+     "Read with no packet ids at cursor 0: LRANGE 0 -1", "Remove of an id whose entry Add already
+     sacrificed (stale read cache)", "Replace while the cursor is 0 inspects element 0".
+   So `rq_class` answers RQNone (the whole trace is accepted) or RQOther (a rejection nobody has
+   explained); a new class is a new constructor and a new case of `rq_situation`. *)
 Inductive rqclass :=
 | RQNone                      (* the whole trace is accepted *)
-| RQLrangeMinus1              (* Read with no ids at cursor 0: LRANGE 0 -1 reads the whole list *)
-| RQStaleCache                (* Remove of an id whose entry Add already sacrificed: counters and cursor move although nothing is removed *)
-| RQReplaceCursor0            (* Replace while the cursor is 0 inspects element 0 *)
 | RQOther.
 
-Fixpoint blob_mem (b : blob) (l : list blob) : bool :=
-  match l with [] => false | x :: r => blob_eqb x b || blob_mem b r end.
+Definition rq_situation (s : rstore) (q : rq) (o : rqop) : rqclass := RQOther.
 
-Definition rq_situation (s : rstore) (q : rq) (o : rqop) : rqclass :=
-  match o with
-  | ROp (ORead _ pids) => match pids with [] => if (rq_cur q =? 0)%Z then RQLrangeMinus1 else RQOther | _ => RQOther end
-  | ROp (ORemove pid) =>
-      match rq_cache q with
-      | Some c => match cache_get pid c with
-                  | Some e => match lget (rq_key q) s with
-                              | Some l => if blob_mem (BElem e) l then RQOther else RQStaleCache
-                              | None => RQOther
-                              end
-                  | None => RQOther
-                  end
-      | None => RQOther
-      end
-  | ROp (OReplace _) => if (rq_cur q =? 0)%Z then RQReplaceCursor0 else RQOther
-  | _ => RQOther
-  end.
-
-(* `seen`: an LRANGE 0 -1 (Read without ids at cursor 0) was already executed: it may hand out
-   the whole list, and a later operation is rejected *)
-Fixpoint rq_classify (s : rstore) (q : rq) (a : ast) (v5 : bool) (limit : N) (seen : bool) (ops : list rqop) : rqclass :=
+Fixpoint rq_classify (s : rstore) (q : rq) (a : ast) (v5 : bool) (limit : N) (ops : list rqop) : rqclass :=
   match ops with
   | [] => RQNone
   | o :: r =>
@@ -130,15 +110,13 @@ Fixpoint rq_classify (s : rstore) (q : rq) (a : ast) (v5 : bool) (limit : N) (se
         | ROp o' => (o', v5, limit)
         | ORestart => (OInit false v5 limit, v5, limit)
         end in
-      let sit := rq_situation s q o in
-      let blame := match sit with RQOther => if seen then RQLrangeMinus1 else RQOther | c => c end in
-      let seen' := seen || match sit with RQLrangeMinus1 => true | _ => false end in
+      let blame := rq_situation s q o in
       match step_ok a ao (oout_of (r_out x)) with
       | Some a' =>
           if inv_ok a' then
             match r_out x with
             | RPanic => RQNone
-            | _ => rq_classify (r_store x) (r_q x) a' v5' limit' seen' r
+            | _ => rq_classify (r_store x) (r_q x) a' v5' limit' r
             end
           else blame
       | None => blame
@@ -146,7 +124,7 @@ Fixpoint rq_classify (s : rstore) (q : rq) (a : ast) (v5 : bool) (limit : N) (se
   end.
 
 Definition rq_class (max : nat) (ifexp : N) (ops : list rqop) : rqclass :=
-  rq_classify [] (rq_new max ifexp [99]) (a_new max ifexp) false 0 false ops.
+  rq_classify [] (rq_new max ifexp [99]) (a_new max ifexp) false 0 ops.
 
 (* ====================================================================================
    PART 2: the broker level.  What the harness observed: the client steps with the journal
